@@ -21,7 +21,12 @@ SPEC = {
             "third, through Advertiser.handle (counter deltas, hook, log lines; first or second delivery). rnd: larger RAs with "
             "0..3 extra prefix / route / RDNSS / DNSSL options and a peer derived by keep / change / drop / duplicate. cfg: own RA "
             "from config.Parse of generated TOML with sub-unit durations against its own wire image, directly and through handle "
-            "with the parsed plugins. A case is non-trivial when some option kind is present on both sides or something was "
+            "with the parsed plugins. dyn: ONE advertiser receives 2-4 RAs while its own RA changes in between without a "
+            "reinitialisation (configuration with wildcard ::/64 prefix / :: RDNSS / ::/0 route stanzas whose injected address and route "
+            "lists change, a forwarding flip, a deprecated prefix / route under an advancing injected clock); the peer sends the wire "
+            "image of the current own RA, of the own RA at the previous reception, or a mutated current image; every reception is one "
+            "case whose own RA is computed by config.Interface.RouterAdvertisement on the state of that moment, independently of "
+            "handle (and the hook's `ours` argument must equal it). A case is non-trivial when some option kind is present on both sides or something was "
             "reported; distinct by canonical input.",
     "nontrivial": lambda c: bool(c.get("input", {}).get("kinds_on_both_sides")) or bool((c.get("observed") or {}).get("reported")),
     "trusted": ["the ndp v1.1.0 codec (theirs is what ndp.ParseMessage returned); its float64 Seconds() conversion is modelled as "
